@@ -1,9 +1,243 @@
 import Driver.Proto
+import PolyVerif.Model.MeshHeap
 
+/-!
+  C01 driver.  Three kinds of request:
+
+  * `c01.shape <op class + parameters> ARGS <k> <mesh representation>…` — the harness observed, with reflect, the
+    slices (array id, off, len, cap) and map identities of the argument meshes.  The driver builds a model heap
+    holding exactly those arrays and maps, runs the model's operation class (`Op.apply`) and prints the SHARING
+    GRAPH of the result: every slice as `a<id>+off:len` (an array that existed before), `n<k>+off:len` (the k-th
+    array allocated by the operation, numbered by first appearance) or `z` (no capacity); every map as `m<id>`,
+    `f<k>` or `nil`.  The harness prints the same description of what the implementation really returned.
+  * `c01.holds.immutable h step mesh d0 d1` — digests of one mesh's observable value at entry and now.
+  * `c01.holds.immutable_full h mesh <snapshot> | <snapshot>` — both complete snapshots; parsed into the model's
+    `MeshObs` and compared with its decidable equality (the predicate `history_immutable` is stated about).
+-/
 namespace Driver.C01
+open PolyVerif.MeshHeap
 
-/-- one request -> one answer line; `none` = unknown op / malformed -/
-def handle (_op : String) (_args : List String) : Option String := none
+abbrev P := StateT (List String) Option
+
+def tok : P String := do
+  match (← get) with
+  | [] => failure
+  | t :: r => set r; pure t
+
+def nat : P Nat := do
+  match (← tok).toNat? with
+  | some n => pure n
+  | none => failure
+
+def expect (s : String) : P Unit := do
+  if (← tok) == s then pure () else failure
+
+def times {β : Type} : Nat → P β → P (List β)
+  | 0, _ => pure []
+  | n + 1, p => do let x ← p; let xs ← times n p; pure (x :: xs)
+
+def slice : P Slice := do
+  let a ← tok; let o ← nat; let l ← nat; let c ← nat
+  if a == "x" then pure Slice.nil else
+  match a.toNat? with
+  | some i => pure ⟨i, o, l, c⟩
+  | none => failure
+
+abbrev MapLit := Option (Nat × List (String × Slice))
+
+def mapLit : P MapLit := do
+  let t ← tok
+  if t == "x" then pure none else
+  match t.toNat? with
+  | none => failure
+  | some id =>
+    let n ← nat
+    let es ← times n (do let nm ← tok; let s ← slice; pure (nm, s))
+    pure (some (id, es))
+
+structure MeshLit where
+  rep : MeshRep
+  maps : List MapLit
+
+def meshLit : P MeshLit := do
+  let topo ← nat; let i ← slice; let m ← slice
+  let ms ← times 4 mapLit
+  pure ⟨⟨topo, i, m, ms.map (fun x => x.map (·.1))⟩, ms⟩
+
+def E : Env Nat := ⟨0, fun n x => x + n, id, fun _ _ => 0⟩
+
+/-- the heap holding exactly the arrays and maps the argument meshes refer to (cell contents are irrelevant
+    for the sharing graph: zeros) -/
+def buildHeap (ms : List MeshLit) : Heap String Nat :=
+  let maps : List (Nat × List (String × Slice)) := ms.flatMap fun m => m.maps.filterMap id
+  let slices : List Slice := (ms.flatMap fun m => [m.rep.indices, m.rep.materials]) ++ maps.flatMap fun m => m.2.map (·.2)
+  let live := slices.filter fun s => s.cap != 0
+  let nArr := live.foldl (fun acc s => max acc (s.arr + 1)) 0
+  let nMap := maps.foldl (fun acc m => max acc (m.1 + 1)) 0
+  { arrays := (List.range nArr).map fun i =>
+      List.replicate ((live.filter fun s => s.arr == i).foldl (fun acc s => max acc (s.off + s.cap)) 0) 0
+    maps := (List.range nMap).map fun i =>
+      match maps.find? (fun m => m.1 == i) with
+      | some m => m.2
+      | none => [] }
+
+structure Namer where
+  arrs : List Nat := []
+  maps : List Nat := []
+
+def indexOf (l : List Nat) (x : Nat) : Option Nat :=
+  let rec go : List Nat → Nat → Option Nat
+    | [], _ => none
+    | y :: ys, i => if y == x then some i else go ys (i + 1)
+  go l 0
+
+def showSlice (base : Nat) (s : Slice) : StateM Namer String := do
+  if s.cap == 0 then return "z"
+  if s.arr < base then return s!"a{s.arr}+{s.off}:{s.len}"
+  let st ← get
+  match indexOf st.arrs s.arr with
+  | some k => return s!"n{k}+{s.off}:{s.len}"
+  | none =>
+    set { st with arrs := st.arrs ++ [s.arr] }
+    return s!"n{st.arrs.length}+{s.off}:{s.len}"
+
+def showMap (h : Heap String Nat) (base mbase : Nat) (k : Nat) (m : Option Nat) : StateM Namer String := do
+  match m with
+  | none => return s!"K{k}=nil"
+  | some id =>
+    let head ←
+      if id < mbase then pure s!"m{id}" else do
+        let st ← get
+        match indexOf st.maps id with
+        | some j => pure s!"f{j}"
+        | none =>
+          set { st with maps := st.maps ++ [id] }
+          pure s!"f{st.maps.length}"
+    let es := (h.mapEntries (some id)).mergeSort (fun a b => !(decide (b.1 < a.1)))
+    let parts ← es.mapM fun e => do let s ← showSlice base e.2; pure (e.1 ++ "=" ++ s)
+    return s!"K{k}={head}[" ++ ";".intercalate parts ++ "]"
+
+def showMesh (h : Heap String Nat) (base mbase : Nat) (r : MeshRep) : String :=
+  let act : StateM Namer String := do
+    let i ← showSlice base r.indices
+    let m ← showSlice base r.materials
+    let ks ← (r.maps.zipIdx).mapM fun (mp, k) => showMap h base mbase k mp
+    return s!"T{r.topo} I={i} M={m} " ++ " ".intercalate ks
+  (act.run {}).1
+
+def zeros (n : Nat) : List Nat := List.replicate n 0
+
+def entryLit : P (String × List Nat × Nat) := do
+  let nm ← tok; let n ← nat; let sp ← nat; pure (nm, zeros n, sp)
+
+def entryLit0 : P (String × List Nat × Nat) := do
+  let nm ← tok; let n ← nat; pure (nm, zeros n, 0)
+
+/-- the operations a request may name, as model programs over the pool of argument meshes;
+    the result is the LAST mesh of the pool afterwards -/
+def opProgram : P (List (Op String Nat) × Bool) := do
+  let name ← tok
+  match name with
+  | "append" => pure ([.append 0 1], false)
+  | "setindices" => do let n ← nat; let sp ← nat; pure ([.setIndices 0 (zeros n) sp], false)
+  | "setmaterials" => do let n ← nat; let sp ← nat; pure ([.setMaterials 0 (zeros n) sp], false)
+  | "sharematerials" => pure ([.shareMaterials 0 1], false)
+  | "topointcloud" => pure ([.toPointCloud 0 1], false)
+  | "clearattrs" => pure ([.clearAttrs 0], false)
+  | "setdata" => do
+      let kind ← nat; let n ← nat; let es ← times n entryLit
+      pure ([.setData 0 kind es], false)
+  | "setattr" => do
+      let kind ← nat; let nm ← tok; let n ← nat; let sp ← nat
+      pure ([.setAttr 0 kind nm (zeros n) sp], false)
+  | "copyattr" => do let kind ← nat; let nm ← tok; pure ([.copyAttr 0 1 kind nm], false)
+  | "rebuild" => do
+      let topo ← nat; let n ← nat; let mm ← nat
+      let attrs ← times 4 (do let k ← nat; times k entryLit0)
+      pure ([.rebuild 0 topo (zeros n) 0 attrs (if mm == 0 then .share else .drop)], false)
+  | "repeat" => do
+      -- repeat.Mesh: result := EmptyMesh(topo); for each transform: result = result.Append(mesh.ApplyTRS(t))
+      let k ← nat; let n ← nat
+      let body := (List.range k).flatMap fun i =>
+        [Op.setAttr 0 2 "Position" (zeros n) 0, Op.append (1 + 2 * i) (2 + 2 * i)]
+      pure (body, true)
+  | "identity" => pure ([], false)
+  | _ => failure
+
+def shapeRequest : P String := do
+  let (prog, isRepeat) ← opProgram
+  expect "ARGS"
+  let k ← nat
+  let ms ← times k meshLit
+  let h := buildHeap ms
+  let pool := ms.map (·.rep)
+  let s0 : State String Nat := ⟨h, pool⟩
+  -- `repeat` starts from EmptyMesh(topology of the argument)
+  let s1 : Option (State String Nat) :=
+    if isRepeat then
+      match pool.head? with
+      | some r => some (step E s0 (.newMesh r.topo [] 0 [] 0 [[], [], [], []]))
+      | none => none
+    else some s0
+  match s1 with
+  | none => failure
+  | some s1 =>
+    -- every step must succeed (the implementation returned a mesh)
+    let rec go (s : State String Nat) : List (Op String Nat) → Option (State String Nat)
+      | [] => some s
+      | op :: rest =>
+        match op.apply E s with
+        | none => none
+        | some (h', rs) => go ⟨h', s.pool ++ rs⟩ rest
+    match go s1 prog with
+    | none => pure "model-rejects"
+    | some s2 =>
+      match s2.pool.getLast? with
+      | none => failure
+      | some r => pure (showMesh s2.heap h.arrays.length h.maps.length r)
+
+/-! ### value level -/
+
+def cells (n : Nat) : P (List String) := times n tok
+
+partial def attrsP (acc : List (Nat × String × List String)) : P (List (Nat × String × List String)) := do
+  match (← get) with
+  | "A" :: _ => do
+      expect "A"
+      let kind ← nat; let nm ← tok; let n ← nat; let cs ← cells n
+      attrsP (acc ++ [(kind, nm, cs)])
+  | _ => pure acc
+
+/-- a snapshot as the harness prints it, into the model's observable-value type -/
+def obsP : P (MeshObs String String) := do
+  expect "T"; let topo ← nat
+  expect "I"; let n ← nat; let idx ← cells n
+  expect "M"; let k ← nat; let mats ← cells k
+  let as ← attrsP []
+  pure { topo := topo, indices := idx, materials := mats,
+         attrs := [1, 2, 3, 4].map fun kind => (as.filter (·.1 == kind)).map fun a => (a.2.1, a.2.2) }
+
+def fullRequest : P String := do
+  let _ ← nat; let _ ← tok
+  let a ← obsP
+  expect "|"
+  let b ← obsP
+  match (← get) with
+  | [] => pure (boolStr (decide (a = b)))
+  | _ => pure "false"
+
+def handle (op : String) (args : List String) : Option String :=
+  match op with
+  | "c01.shape" => (shapeRequest.run args).map (·.1)
+  | "c01.holds.immutable" =>
+    match args with
+    | [_, _, _, d0, d1] => some (boolStr (d0 == d1))
+    | _ => none
+  | "c01.holds.immutable_full" =>
+    match fullRequest.run args with
+    | some (s, _) => some s
+    | none => some "false"
+  | _ => none
 
 end Driver.C01
 
